@@ -58,6 +58,7 @@ func init() {
 			{ID: "C06.R3", Title: "no kind-restricted reflect.Type/Value method is called on the switched value inside a `case reflect.K` clause all of whose kinds make it panic", Covers: "Path.Get / assignment helpers never panic on a supported kind", Min: 10, Run: c06r3},
 			{ID: "C06.R3b", Title: "a reflect.Value that can be the zero Value for ordinary data (x.Elem(), reflect.ValueOf(<interface>), MapIndex) is never used, locally or in the module function it is passed to (all implementations for interface calls), as receiver of a method that panics on the zero Value unless an IsValid test protects the use", Covers: "Path.Get and the assignment helpers return an error, not a panic, for nil pointers / nil interfaces inside the source value", Min: 10, Run: c06r3b},
 			{ID: "C15.R6", Title: "in the four bitmap key decoders every path from one bitmap row read to the next passes the `curBit == 0` test whose true branch exits", Covers: "a key longer than every field name (also through multi-byte \\u escapes) ends the match instead of indexing past the bitmap", Min: 8, Run: c15r6},
+			{ID: "C06.R5", Title: "every read at <cursor>+k (index, slice bound, char(p, cursor+k)), k >= 1, in the decoders and in compact.go/indent.go is protected by a dominating `cursor+j >= len` exit or an enclosing/short-circuit `cursor+j < len` test with j >= k, by readAtLeast, or by the NUL-sentinel idiom (the preceding byte was matched against a non-NUL constant)", Covers: "truncated literals and escapes give an error instead of an out-of-range panic or a stray read", Min: 25, Run: c06r5},
 			{ID: "C06.R4", Title: "no ssa.Panic instruction of the module (outside init) is in a function CHA-reachable from the decoding/utility entry points", Covers: "no explicit panic on any input", Min: 5, Run: c06r4},
 		},
 	})
@@ -69,6 +70,8 @@ func init() {
 			{ID: "C09.R1", Title: "forward may-analysis over each stream-mode function's CFG: after a node that may reach (*Stream).read, every variable taken from the window (bufptr/stat pointer, buf slice, loaded byte) is stale until reassigned; no stale variable is read", Covers: "a refill in the middle of a token does not change the result", Min: 12, Run: c09r1},
 			{ID: "C09.R2", Title: "in nullBytes/trueBytes/falseBytes each `s.char() != K` whose body refills is a loop condition or is followed by a second comparison with K before the cursor advances", Covers: "a literal split across chunks is still checked letter by letter", Min: 10, Run: c09r2},
 			{ID: "C09.R3", Title: "the error result of r.Read in (*Stream).read flows to a Stream field or a return value", Covers: "a reader error other than EOF is reported, never turned into a decoded value", Min: 1, Run: c09r3},
+			{ID: "C09.R5", Title: "the operand of utf8.FullRune on the stream window ends at s.length", Covers: "a multi-byte character split across chunks decodes as in buffer mode", Min: 1, Run: c09r5},
+			{ID: "C06.R5", Title: "look-ahead reads are length-guarded (shared with C06; in stream mode a single refill is not a guard, a loop until enough bytes is)", Covers: "escapes split over several reads decode as in buffer mode", Min: 25, Run: c06r5},
 			{ID: "C09.R4", Title: "for 13 buffer/stream scanner pairs the value-start dispatch sends the same non-NUL byte values to an error and names the same bytes in its case labels", Covers: "both modes give the same accept/reject verdict at value start", Min: 20, Run: c09r4},
 		},
 	})
@@ -142,6 +145,7 @@ func init() {
 			{ID: "C18.R1", Title: "the dst slice handed to compact/doIndent by functions that then write it to the caller's *bytes.Buffer is provably empty (x[:0] of library memory, x[len(x):], make(_,0,n), AvailableBuffer) and never buf.Bytes() or buf.Bytes()[:0]", Covers: "exactly the new text is appended to the destination buffer", Min: 2, Run: c18r1},
 			{ID: "C18.R2", Title: "every bytes.Buffer write in compact.go/indent.go is dominated by the `err != nil → return` test of the compact/doIndent call", Covers: "on an invalid text the destination buffer is left as it was", Min: 2, Run: c18r2},
 			{ID: "C18.R3", Title: "recursion rule C06.R2 evaluated from Compact/Indent/Valid/HTMLEscape (and Marshal, whose MarshalJSON validation uses compact)", Covers: "deeply nested input gives an error, not a fatal stack overflow", Min: 2, Run: c18r3},
+			{ID: "C06.R5", Title: "every read at <cursor>+k (index, slice bound, char(p, cursor+k)), k >= 1, in the decoders and in compact.go/indent.go is protected by a dominating `cursor+j >= len` exit or an enclosing/short-circuit `cursor+j < len` test with j >= k, by readAtLeast, or by the NUL-sentinel idiom (the preceding byte was matched against a non-NUL constant)", Covers: "truncated literals and escapes give an error instead of an out-of-range panic or a stray read", Min: 25, Run: c06r5},
 			{ID: "C18.R5", Title: "compactValue/indentValue, compactObject/indentObject, compactArray/indentArray send each of the 256 byte values to an error, to the same delegate, or to inline handling alike", Covers: "Compact and Indent accept the same texts and share string/number/literal handling", Min: 3, Run: c18r5},
 			{ID: "C05.R1", Title: "byte classes of every scanner state (shared with C05; includes compactString)", Covers: "raw control characters and invalid escapes are rejected by Compact/Indent/Valid", Min: 100, Run: c05r1},
 			{ID: "C05.R3", Title: "trailing-input check (shared with C05; includes encoder.validateEndBuf)", Covers: "anything after the value makes Compact/Indent fail", Min: 6, Run: c05r3},
